@@ -192,3 +192,55 @@ func ruleOwnFresh(p *Prog, r *Report, fname string) {
 		r.Bad(rule, fname, "result shares no structure with arguments", p.Pos(f.Pos()), "memory reachable from the result includes: "+strings.Join(shared, "; "))
 	}
 }
+
+// ruleOwnPrivate (OWN.private): what fn returns is the caller's alone — no object reachable from a (non-error) result is also
+// reachable from a package variable of the module (a cache, a pool, a shared scratch buffer). A document handed to the caller
+// that package state still references can be rewritten by a later call.
+func ruleOwnPrivate(p *Prog, r *Report, fnames []string) {
+	const rule = "OWN.private"
+	a := p.PointsTo()
+	// everything reachable from module package variables
+	gstart := map[objID]bool{}
+	for _, ob := range a.objs {
+		if ob.kind == "global" {
+			if g, ok := ob.site.(*ssa.Global); ok && p.moduleGlobal(g) {
+				gstart[ob.id] = true
+			}
+		}
+	}
+	greach := a.reachObjs(gstart)
+	for _, fname := range fnames {
+		f := p.Fn(fname)
+		if f == nil {
+			r.Anchor(rule, fname)
+			continue
+		}
+		start := map[objID]bool{}
+		for i, n := range a.results[f] {
+			if isErrorType(f.Signature.Results().At(i).Type()) {
+				continue
+			}
+			a.pts[n].each(func(o objID) { start[o] = true })
+		}
+		reach := a.reachObjs(start)
+		var shared []string
+		for o := range reach {
+			ob := a.objs[o]
+			if ob.kind == "func" {
+				continue
+			}
+			if greach[o] {
+				shared = append(shared, ob.label)
+			}
+		}
+		sort.Strings(shared)
+		if len(shared) == 0 {
+			r.OK(rule, fname, "result not reachable from package state", p.Pos(f.Pos()), fmt.Sprintf("%d objects reachable from the result, none of them reachable from one of the module's package variables (%d objects)", len(reach), len(greach)))
+		} else {
+			if len(shared) > 4 {
+				shared = append(shared[:4], fmt.Sprintf("… %d more", len(shared)-4))
+			}
+			r.Bad(rule, fname, "result not reachable from package state", p.Pos(f.Pos()), "memory reachable from the result is also referenced by package state: "+strings.Join(shared, "; "))
+		}
+	}
+}
